@@ -772,17 +772,19 @@ impl Swift {
     /// When using multiple file generation we write this into a separate module vs at the
     /// end of the generated file.
     fn write_codable_file(&self, output_folder: &str) -> std::io::Result<()> {
-        let output_string = self.get_codable_contents();
+        // Render exactly the bytes that go into the file, so that an unchanged file
+        // compares equal and is left untouched.
+        let mut output = Vec::new();
+        self.write_codable(&mut output, &self.get_codable_contents())?;
         let output_path = Path::new(output_folder).join("Codable.swift");
 
         if let Ok(buf) = fs::read(&output_path) {
-            if buf == output_string.as_bytes() {
+            if buf == output {
                 return Ok(());
             }
         }
 
-        let mut w = fs::File::create(output_path)?;
-        self.write_codable(&mut w, &output_string)
+        fs::write(output_path, output)
     }
 
     fn get_codable_contents(&self) -> String {
